@@ -31,6 +31,8 @@ pub struct MapSpec {
   pub file: Option<String>,
   /// When set, used verbatim instead of encoding `segs`.
   pub raw_mappings: Option<String>,
+  #[serde(default)]
+  pub debug_id: Option<String>,
 }
 
 impl MapSpec {
@@ -43,6 +45,7 @@ impl MapSpec {
       root: None,
       file: None,
       raw_mappings: None,
+      debug_id: None,
     }
   }
   pub fn mappings(&self) -> String {
@@ -63,6 +66,9 @@ impl MapSpec {
     }
     if let Some(f) = &self.file {
       m.set_file(Some(f.clone()));
+    }
+    if let Some(d) = &self.debug_id {
+      m.set_debug_id(Some(d.clone()));
     }
     m
   }
